@@ -1130,20 +1130,21 @@ Section CountAdjust.
 Variable S : seq (seq Z).
 Let s0 := List.hd [::] S.
 Hypothesis s0_neq0 : PR s0 != 0.
-Hypothesis sturm_oc_correct : forall a b c d : Z, (0 < b)%R -> (0 < d)%R -> QR a b < QR c d ->
-  Z.sub (Z.of_nat (lp_sign_changes S (Fin a b) (size S))) (Z.of_nat (lp_sign_changes S (Fin c d) (size S)))
-  = Z.of_nat (count (fun x => QR a b < x <= QR c d) (rootsR (PR s0))).
 
-Theorem lp_count_roots_repaired_cond (J : ri_itv) : (0 < qlo_d J)%R -> (0 < qhi_d J)%R ->
+(* premise only at the two end points of J *)
+Theorem lp_count_roots_repaired_at (J : ri_itv) : (0 < qlo_d J)%R -> (0 < qhi_d J)%R ->
   QR (qlo_n J) (qlo_d J) < QR (qhi_n J) (qhi_d J) ->
+  Z.sub (Z.of_nat (lp_sign_changes S (Fin (qlo_n J) (qlo_d J)) (size S)))
+        (Z.of_nat (lp_sign_changes S (Fin (qhi_n J) (qhi_d J)) (size S)))
+  = Z.of_nat (count (fun x => QR (qlo_n J) (qlo_d J) < x <= QR (qhi_n J) (qhi_d J)) (rootsR (PR s0))) ->
   lp_count_roots_gen true S (Some J) = Z.of_nat (count (in_qitv J) (rootsR (PR s0))).
 Proof.
-move=> l0 h0 lh; rewrite /lp_count_roots_gen -/s0.
+move=> l0 h0 lh oc; rewrite /lp_count_roots_gen -/s0.
 have -> : Z.eqb (Z.mul (qlo_n J) (qhi_d J)) (Z.mul (qhi_n J) (qlo_d J)) = false.
   by move: lh; rewrite QR_lt // /riq_lt => /Z.ltb_lt ?; apply/Z.eqb_neq; lia.
 rewrite /=.
 have -> : length S = size S by [].
-rewrite (sturm_oc_correct l0 h0 lh) /=.
+rewrite oc /=.
 have uxs : uniq (rootsR (PR s0)).
   by apply: (@sorted_uniq _ <%R) (sorted_roots _ _ _); [exact: lt_trans | exact: ltxx].
 have := count_ends (qlo_open J) (qhi_open J) uxs lh.
@@ -1153,6 +1154,14 @@ case: (qhi_open J); case: (qlo_open J) => /=;
   case: (psgn_at_rat s0 (qhi_n J) (qhi_d J) == 0); case: (psgn_at_rat s0 (qlo_n J) (qlo_d J) == 0) => /=; lia.
 Qed.
 
+Hypothesis sturm_oc_correct : forall a b c d : Z, (0 < b)%R -> (0 < d)%R -> QR a b < QR c d ->
+  Z.sub (Z.of_nat (lp_sign_changes S (Fin a b) (size S))) (Z.of_nat (lp_sign_changes S (Fin c d) (size S)))
+  = Z.of_nat (count (fun x => QR a b < x <= QR c d) (rootsR (PR s0))).
+
+Theorem lp_count_roots_repaired_cond (J : ri_itv) : (0 < qlo_d J)%R -> (0 < qhi_d J)%R ->
+  QR (qlo_n J) (qlo_d J) < QR (qhi_n J) (qhi_d J) ->
+  lp_count_roots_gen true S (Some J) = Z.of_nat (count (in_qitv J) (rootsR (PR s0))).
+Proof. by move=> l0 h0 lh; apply: lp_count_roots_repaired_at => //; exact: sturm_oc_correct. Qed.
 
 End CountAdjust.
 
@@ -1319,5 +1328,38 @@ have nz : all (fun p => PR p != 0) (s0 :: s1 :: l).
 rewrite sturm_var_minf // sturm_var_pinf // -(pposs_count st).
 have [c c0 ->] := ps0; case: ifP => _; rewrite ?rootsRZ ?rootsRN ?scalerN ?rootsRN ?rootsRZ //; exact: lt0r_neq0.
 Qed.
+
+(* the libpoly chain as an R-level Sturm chain of G = PR (ppp f), which has the roots of f *)
+Lemma lp_sturm_sequence_chain f : (1 < size (PR f))%N ->
+  [/\ PR (ppp f) != 0, rootsR (PR (ppp f)) = rootsR (PR f),
+      pposs (map PR (lp_sturm_sequence f)) (mods (PR (ppp f)) (PR (ppp f))^`())
+    & Rlinks (map PR (lp_sturm_sequence f))].
+Proof.
+move=> sf; have f0 : PR f != 0 by rewrite -size_poly_gt0 (ltn_trans _ sf).
+rewrite /lp_sturm_sequence; set s0 := ppp f; set s1 := ppp (pderiv s0).
+have [s00 ls0 ps0] := PR_ppp f0; rewrite -/s0 in s00 ls0 ps0.
+have szs0 : size (PR s0) = size (PR f).
+  by rewrite (ppos_size ps0); case: ifP => _ //; rewrite size_opp.
+have d0 : PR (pderiv s0) != 0.
+  by rewrite PR_pderiv -size_poly_gt0 size_deriv szs0; move: (size (PR f)) sf => n; lia.
+have [s10 ls1 ps1] := PR_ppp d0; rewrite -/s1 in s10 ls1 ps1.
+have ld : 0 < lead_coef (PR (pderiv s0)).
+  by rewrite PR_pderiv lead_coef_deriv_gt0 // szs0.
+rewrite ltNge (ltW ld) /= in ps1.
+have szs1 : (size (PR s1) <= size (PR s0))%N.
+  by rewrite (ppos_size ps1) PR_pderiv size_deriv leq_pred.
+have lk : Rlinks (map PR (s0 :: lp_sturm_loop (length s0) s0 s1)).
+  apply: lp_loop_links => //.
+  apply: leq_trans szs1 _; rewrite size_PR.
+  have : (size (pnorm s0) <= size s0)%N.
+    by rewrite -polyseq_Poly_pnorm; apply: size_Poly.
+  by move=> h; apply: leq_trans h _.
+split=> //.
+  by have [c c0 ->] := ps0; case: ifP => _; rewrite ?rootsRZ ?rootsRN ?scalerN ?rootsRN ?rootsRZ //; exact: lt0r_neq0.
+have [l lE] := lp_loop_cons (length s0) s0 s1; rewrite lE in lk *.
+apply: Rlinks_mods => //; first exact: ppos_refl.
+by rewrite -PR_pderiv.
+Qed.
+
 
 End Morph.
